@@ -256,7 +256,7 @@ def run_lines(cmd, lines, env=None, timeout=900, per_line_crash="crash"):
 
 def summarize_crash(err, rc):
     m = re.search(r"(ERROR: AddressSanitizer: [^\n]*|runtime error: [^\n]*|Assertion [^\n]*failed[^\n]*|timeout after \d+s)", err or "")
-    where = re.search(r"#\d+ 0x[0-9a-f]+ in (\w+) (/repo[^\s]*|[^\s]*libcoap[^\s]*)", err or "")
+    where = re.search(r"#\d+ 0x[0-9a-f]+ in (\w+) (/repo[^\s]*|%s[^\s]*|[^\s]*libcoap[^\s]*)" % re.escape(REPO), err or "")
     s = m.group(1) if m else "rc=%s %s" % (rc, (err or "").strip().splitlines()[-1:] or "")
     s = re.sub(r"0x[0-9a-f]+", "0x?", s)
     s = re.sub(r"\s+", "_", s.strip())
